@@ -122,7 +122,8 @@ class GrammarGen:
 
     def skip_until(self):
         r = self.r
-        lits = r.sample(["a", "b", "ab", "c", "ba"], r.randint(1, 3))
+        # mostly 1-3 stop strings, now and then 5-8 (implementations switch strategy with the number of stop strings)
+        lits = r.sample(["a", "b", "ab", "c", "ba"], r.randint(1, 3)) if r.random() < 0.8 else r.sample(["a", "b", "ab", "c", "ba", "cc", "bc", "ca", "x", "y"], r.randint(5, 8))
         alts = [("str", s) for s in lits]
         if self.p.get("skipuntil_ci") and r.random() < 0.4:
             alts.insert(r.randrange(len(alts) + 1), ("ci", r.choice(["ab", "Ba", "c"])))
@@ -321,6 +322,10 @@ def _opt_shapes():
         ("until_ref", lambda c: ("seq", [("star", G_(("seq", [("not", ("ref", "stop")), ("any",)]))), ("opt", ("ref", "stop"))])),
         ("until_ref_normal", lambda c: ("seq", [("star", G_(("seq", [("not", ("ref", "nstop")), ("any",)]))), ("opt", ("ref", "nstop"))])),
         ("not_any", lambda c: ("seq", [("not", G_(c)), ("any",), ("star", ("any",))])),
+        # the loop lives in a plain / silent rule of its own that is only CALLED from r (atomic or not by r's modifier);
+        # every rule is also used as a start rule, where the callee runs with trivia enabled
+        ("until_in_callee", lambda c: ("seq", [("ref", "loop"), ("opt", ("ref", "stop"))])),
+        ("until_in_silent_callee", lambda c: ("seq", [("ref", "sloop"), ("opt", ("ref", "stop"))])),
     ]
 
 
@@ -329,12 +334,17 @@ OPT_MODS = ["", "@", "$"]
 OPT_TRIVIA = [False, True]
 
 
-def opt_target_size() -> int:
-    n = len(OPT_OPERANDS)
+# for load-only use (C11): the same family with operands that are legal but make no sense to parse with inside a repetition
+OPT_OPERANDS_WITH_EMPTY = OPT_OPERANDS + [("empty", ("str", "")), ("ciempty", ("ci", "")), ("eoi", ("eoi",)), ("peek", ("peek",))]
+
+
+def opt_target_size(operands=None) -> int:
+    n = len(operands or OPT_OPERANDS)
     return n * n * len(OPT_SHAPES) * len(OPT_MODS) * len(OPT_TRIVIA)
 
 
-def opt_target_case(idx: int):
+def opt_target_case(idx: int, operands=None):
+    OPT_OPERANDS = operands or globals()["OPT_OPERANDS"]  # noqa: N806
     n = len(OPT_OPERANDS)
     idx, tv = divmod(idx, len(OPT_TRIVIA))
     idx, mi = divmod(idx, len(OPT_MODS))
@@ -345,6 +355,9 @@ def opt_target_case(idx: int):
     # i == j: a single operand (no choice at all), otherwise the ordered pair as a choice
     c = a if i == j else ("alt", [a, b])
     rules: dict = {"r": (OPT_MODS[mi], shape(c))}
+    if sname in ("until_in_callee", "until_in_silent_callee"):
+        rules["stop"] = ("_", c)
+        rules["loop" if sname == "until_in_callee" else "sloop"] = ("" if sname == "until_in_callee" else "_", ("star", ("group", ("seq", [("not", ("group", c)), ("any",)]))))
     if sname == "until_ref":
         rules["stop"] = ("_", c)
     if sname == "until_ref_normal":
@@ -530,6 +543,138 @@ def stack_dig_case(index: int):
     inputs = ["", want, want[:-1], want + "a", "!" + want, want[::-1], "zyx" + want, "x" + want]
     label = f"stackdig/{before}/{outer}/{inside}/{direct}/{inner}/{npop}/{'fail' if fails else 'commit'}"
     return label, rules, inputs
+
+
+# ----------------------------------------------------------------------------------------
+# scale family: the same few shapes at growing SIZE (rule chains, wide choices, long sequences, deep nesting, many
+# rules), because thresholds, iteration caps and recursion budgets only show from some size on.  All sizes stay inside
+# the bounds the properties state (text <= 2 kB, nesting <= 40, counts <= 64).
+
+SCALE_SIZES = [1, 2, 3, 8, 16, 19, 20, 21, 32, 33, 40, 64]
+SCALE_FAMILIES = [
+    "chain_topdown", "chain_bottomup", "wide_choice", "wide_choice_refs", "long_seq", "nested_groups", "nested_opt", "prefix_chain", "postfix_stack",
+    "many_rules_choice", "deep_seq_choice", "tag_chain", "counted_chain", "wide_until", "recursion_depth", "paren_depth",
+]
+SCALE_DEPTHS = {1: 5, 2: 30, 3: 59, 8: 61, 16: 99, 19: 100, 20: 101, 21: 120, 32: 150, 33: 199, 40: 250, 64: 300}
+SCALE_MODS = ["", "_", "@", "mixed"]
+
+
+def scale_size() -> int:
+    return len(SCALE_FAMILIES) * len(SCALE_SIZES) * len(SCALE_MODS) * 2
+
+
+def _lit(i: int) -> str:
+    return "abc"[i % 3] + "xyz"[(i // 3) % 3] + ("q" if i >= 9 and (i // 9) % 2 else "") + ("w" * (i // 18))
+
+
+def scale_case(index: int):
+    """index -> (label, rules, inputs) or None when the combination is out of bounds / redundant."""
+    i = index
+    trivia = i % 2 == 1
+    i //= 2
+    mod = SCALE_MODS[i % len(SCALE_MODS)]
+    i //= len(SCALE_MODS)
+    n = SCALE_SIZES[i % len(SCALE_SIZES)]
+    i //= len(SCALE_SIZES)
+    fam = SCALE_FAMILIES[i]
+
+    def m(k: int) -> str:
+        return ["", "_", "@", "$", "!"][k % 5] if mod == "mixed" else mod
+
+    rules: dict = {}
+    inputs: list[str] = []
+    if fam in ("chain_topdown", "chain_bottomup"):
+        names = [f"c{k}" for k in range(n)]
+        defs = [(names[k], (m(k), ("seq", [("str", "<"), ("ref", names[k + 1]), ("str", ">")]) if k % 4 == 3 else ("ref", names[k + 1]))) for k in range(n - 1)]
+        defs.append((names[-1], (m(n - 1), ("alt", [("str", "a"), ("str", "b")]))))
+        rules["r"] = ("", ("seq", [("ref", names[0]), ("eoi",)]))
+        for nm, d in defs if fam == "chain_topdown" else reversed(defs):
+            rules[nm] = d
+        w = "a"
+        for k in reversed(range(n - 1)):
+            if k % 4 == 3:
+                w = "<" + w + ">"
+        inputs = [w, w.replace("a", "b"), w.replace("a", " a "), w[:-1], w + ">", w.replace("a", "c")]
+    elif fam == "wide_choice":
+        rules["r"] = (mod if mod != "mixed" else "", ("seq", [("plus", ("group", ("alt", [("str", _lit(k)) for k in range(n)]))), ("eoi",)]))
+        inputs = [_lit(0), _lit(n - 1), _lit(n // 2) + _lit(0), _lit(n - 1) + " " + _lit(n - 1), _lit(n), "a", _lit(n - 1)[:-1]]
+    elif fam == "wide_choice_refs":
+        rules["r"] = ("", ("seq", [("plus", ("group", ("alt", [("ref", f"w{k}") for k in range(n)]))), ("eoi",)]))
+        for k in range(n):
+            rules[f"w{k}"] = (m(k), ("str", _lit(k)))
+        inputs = [_lit(0), _lit(n - 1), _lit(n // 2) + _lit(0), _lit(n - 1) + " " + _lit(n - 1), _lit(n), _lit(n - 1)[:-1]]
+    elif fam == "long_seq":
+        rules["r"] = (mod if mod != "mixed" else "$", ("seq", [("str", "abc"[k % 3]) for k in range(n)] + [("eoi",)]))
+        w = "".join("abc"[k % 3] for k in range(n))
+        inputs = [w, " ".join(w), w[:-1], w + "a", w[: n // 2] + "x" + w[n // 2 :], "  ".join(w)]
+    elif fam in ("nested_groups", "nested_opt", "prefix_chain", "postfix_stack"):
+        if n > 40:
+            return None
+        if fam == "nested_groups":
+            e: tuple = ("alt", [("str", "a"), ("str", "b")])
+            for _ in range(n):
+                e = ("group", e)
+            inputs = ["a", "b", "", "c", "ab"]
+        elif fam == "nested_opt":
+            e = ("str", "z")
+            for k in range(n):
+                e = ("opt", ("group", ("seq", [("str", "ab"[k % 2]), e])))
+            w = "".join("ab"[k % 2] for k in reversed(range(n)))
+            inputs = [w + "z", w, w[: n // 2], "", w + "zz", " ".join(w + "z")]
+        elif fam == "prefix_chain":
+            e = ("str", "a")
+            for k in range(n):
+                e = ("not", e) if k % 3 != 2 else ("and", e)
+            e = ("seq", [e, ("star", ("any",))])
+            inputs = ["a", "b", "", "ab", " a"]
+        else:
+            e = ("str", "a")
+            for k in range(min(n, 12)):
+                e = [("opt", e), ("star", ("group", ("seq", [e, ("str", ",")]))), ("exact", e, 1), ("plus", ("group", ("seq", [("str", "("), e, ("str", ")")]))), ("minmax", e, 0, 2)][k % 5]
+            inputs = ["", "a", "a,", "(a,)", "((a,))", "a,a,", "(a,a,)(a,)", "( a , )"]
+        rules["r"] = (mod if mod != "mixed" else "!", ("seq", [e, ("eoi",)]))
+    elif fam == "many_rules_choice":
+        rules["r"] = ("", ("seq", [("star", ("group", ("alt", [("ref", f"k{k}") for k in reversed(range(n))]))), ("eoi",)]))
+        for k in range(n):
+            rules[f"k{k}"] = (m(k), ("seq", [("str", _lit(k)), ("opt", ("str", "!"))]))
+        inputs = [_lit(0) + _lit(n - 1), _lit(n - 1) + "!" + _lit(0), _lit(n // 2) + " ! ", "", _lit(n), _lit(0) + "! " + _lit(n - 1) + "!"]
+    elif fam == "deep_seq_choice":
+        if n > 40:
+            return None
+        e = ("str", "z")
+        for k in range(n):
+            e = ("alt", [("seq", [("str", "ab"[k % 2]), ("group", e)]), ("str", "yx"[k % 2])])
+        rules["r"] = (mod if mod != "mixed" else "", ("seq", [e, ("eoi",)]))
+        w = "".join("ab"[k % 2] for k in reversed(range(n)))
+        inputs = [w + "z", w[: n // 2] + "yx"[(n - n // 2 - 1) % 2] if n > 1 else "y", "yx"[(n - 1) % 2], w, w + "zz", " ".join(w + "z")]
+    elif fam == "tag_chain":
+        rules["r"] = (mod if mod not in ("mixed", "_") else "", ("seq", [("tag", f"t{k}", ("ref", f"g{k % 3}")) for k in range(n)] + [("eoi",)]))
+        for k in range(3):
+            rules[f"g{k}"] = (m(k + 1) if mod == "mixed" else "", ("str", "abc"[k]))
+        w = "".join("abc"[k % 3] for k in range(n))
+        inputs = [w, " ".join(w), w[:-1], w + "a", "b" + w[1:]]
+    elif fam == "wide_until":
+        stops = [_lit(k) for k in range(n)]
+        rules["r"] = (mod if mod != "mixed" else "@", ("seq", [("star", ("group", ("seq", [("not", ("group", ("alt", [("str", x) for x in stops]))), ("any",)]))), ("opt", ("str", stops[-1])), ("eoi",)]))
+        inputs = ["", "zzzz", "zz zz", "zz" + stops[-1], "z" + stops[0] + "z", stops[n // 2], "zzz" + stops[-1][:-1], "z z " + stops[-1]]
+    elif fam in ("recursion_depth", "paren_depth"):
+        # rule-stack depth d: the recursion budget of the interpreter is far beyond these (a few thousand frames)
+        d = SCALE_DEPTHS[n]
+        if fam == "recursion_depth":
+            rules["r"] = ("", ("seq", [("ref", "x"), ("eoi",)]))
+            rules["x"] = (m(1) if mod != "_" else "", ("seq", [("str", "x"), ("opt", ("ref", "x"))]))
+            inputs = ["x" * d, "x" * (d + 1), "x" * d + "y", " ".join("x" * d), "x" * (d - 1)]
+        else:
+            rules["r"] = ("", ("seq", [("ref", "p"), ("eoi",)]))
+            rules["p"] = (m(1) if mod != "_" else "", ("alt", [("seq", [("str", "("), ("ref", "p"), ("str", ")")]), ("str", "x")]))
+            inputs = ["(" * d + "x" + ")" * d, "(" * d + "x" + ")" * (d - 1), "(" * d + ")" * d, "( " * d + "x" + " )" * d, "(" * (d + 1) + "x" + ")" * (d + 1)]
+    else:  # counted_chain: counts up to the stated bound of 64
+        rules["r"] = (mod if mod != "mixed" else "", ("seq", [("exact", ("str", "a"), n), ("min", ("str", "b"), n // 2), ("max", ("str", "c"), n), ("minmax", ("group", ("seq", [("str", "d"), ("opt", ("str", "e"))])), n // 3, n), ("eoi",)]))
+        inputs = ["a" * n + "b" * (n // 2) + "d" * (n // 3), "a" * n + "b" * n + "c" * n + "de" * n, "a" * (n - 1) + "b" * n, "a" * n + "b" * (n // 2) + "c" * (n + 1), " ".join("a" * n + "b" * n) + " d"]
+    if trivia:
+        rules["WHITESPACE"] = ("_", ("str", " "))
+    label = f"scale/{fam}/{n}/{mod or 'n'}/{'ws' if trivia else 'nows'}"
+    return label, rules, [x for j, x in enumerate(inputs) if x not in inputs[:j]]
 
 
 # ----------------------------------------------------------------------------------------
